@@ -42,6 +42,7 @@ static void emit_reset(const char *mode)
 	printf("{\"e\":\"Reset\",\"mode\":\"%s\",\"n\":%d,", mode, n);
 	arr("left", L); printf(","); arr("right", R); printf(","); arr("isl", ISL); printf("}\n");
 }
+static const char *step_name = "Step";
 static void emit_step(int ret)
 {
 	int l[MAXN + 1], r[MAXN + 1], t[MAXN + 1], f[MAXN + 1];
@@ -50,7 +51,7 @@ static void emit_step(int ret)
 		if (freed[i]) { l[i] = r[i] = t[i] = -1; continue; }
 		l[i] = idx(nodes[i]->node.left); r[i] = idx(nodes[i]->node.right); t[i] = (int)((uintptr_t)nodes[i]->node.left & 1);
 	}
-	printf("{\"e\":\"Step\",\"ret\":%d,", ret);
+	printf("{\"e\":\"%s\",\"ret\":%d,", step_name, ret);
 	arr("left", l); printf(","); arr("right", r); printf(","); arr("tag", t); printf(","); arr("freed", f); printf("}\n");
 }
 static bool is_list(bintree_node_t *p) { return p && containerof(p, tn_t, node)->islist; }
@@ -97,9 +98,18 @@ static void run_mode(const char *mode)
 		unsigned lock = 0;
 		memset(&dnode, 0, sizeof(dnode));
 		bintree_iterate_in_order(&decoy, &dnode);
+		/* on some runs the walk is abandoned after a few nodes and run to its end by bintree_iterate_complete */
+		static unsigned abandon;
+		int quit_after = (++abandon % 3 == 0 && strcmp(mode, "list")) ? (int)(abandon / 3 % (n + 1)) : -1;
 		for (;;) {
 			emit_step(idx(p));
 			if (!p || !guard--) break;
+			if (quit_after-- == 0) {
+				if (typed) tw_iterate_complete(&it); else bintree_iterate_complete(&it);
+				step_name = "Complete"; emit_step(0); step_name = "Step";
+				p = NULL;
+				break;
+			}
 			if (typed) p = tw_to(tw_next(&it));
 			else if (altw & 2) {
 				/* a caller that walks two trees in lock step: the argument has a side effect, a function
